@@ -159,6 +159,49 @@ def check_c26(prog):
             if abs(exp.get(k, 0.0) - got.get(k, 0.0)) > 1e-7:
                 out["violations"].append(("subquery2:value", "subquery(%s,P): %s, top level: %s" % (goal, sorted(got.items()), sorted(exp.items()))))
                 break
+    # a ground goal and its negation, in both spellings of the negation
+    for q in qs:
+        goal = progs.atom_str(q[1])
+        if "_" in goal or any(progs.is_var(a) for a in q[1][1]) or goal not in base[1]:
+            continue
+        for neg in ("\\+%s", "not(%s)"):
+            g2 = neg % goal
+            wrapper = progs.render(rest) + "ask(P) :- subquery(%s, P).\n" % g2
+            try:
+                e = DefaultEngine()
+                db = e.prepare(PrologString(wrapper))
+                got = [float(a[0]) for a in e.query(db, Term("ask", None))]
+            except Exception as ex:      # noqa
+                out["violations"].append(("subquery2:negated-goal:exception:" + classify_exception(ex).split(":", 1)[1],
+                                          "subquery(%s, P) raised %s" % (g2, classify_exception(ex))))
+                continue
+            if len(got) != 1 or abs(got[0] - (1.0 - base[1][goal])) > 1e-7:
+                out["violations"].append(("subquery2:negated-goal", "subquery(%s,P): %s, top level gives P(%s) = %s"
+                                          % (g2, got, goal, base[1][goal])))
+    # negative evidence on all instances of a unary predicate at once: subquery(G, P, [\+ pred(_)])
+    if ev and qs and len(ev[0][1][1]) == 1:
+        pred = ev[0][1][0]
+        cond_ng = _eval(progs.render(rest + qs) + "evidence(\\+%s(_)).\n" % pred)
+        q = qs[0]
+        goal = progs.atom_str(q[1]).replace("_", "X")
+        wrapper = progs.render(rest) + "ask(G,P) :- G = %s, subquery(G, P, [\\+%s(_)]).\n" % (goal, pred)
+        try:
+            e = DefaultEngine()
+            db = e.prepare(PrologString(wrapper))
+            got = ("ok", dict((str(r[0]), float(r[1])) for r in e.query(db, Term("ask", None, None))))
+        except Exception as ex:      # noqa
+            got = ("exc", classify_exception(ex))
+        if cond_ng[0] == "ok" and got[0] == "ok":
+            exp = dict((k, v2) for k, v2 in cond_ng[1].items() if _instance_of(k, q[1]))
+            for k in set(exp) | set(got[1]):
+                if abs(exp.get(k, 0.0) - got[1].get(k, 0.0)) > 1e-7:
+                    out["violations"].append(("subquery3:non-ground-negative-evidence", "subquery(%s,P,[\\+%s(_)]): %s, top level "
+                                              "with evidence(\\+%s(_)): %s" % (goal, pred, sorted(got[1].items()), pred,
+                                                                               sorted(exp.items()))))
+                    break
+        elif cond_ng[0] == "ok" and got[0] == "exc":
+            out["violations"].append(("subquery3:non-ground-negative-evidence:exception:" + got[1].split(":", 1)[1],
+                                      "subquery/3 raised %s, top level answers" % got[1]))
     if ev and qs:
         cond = _eval(progs.render(rest + qs + ev[:1]))
         a, v = ev[0][1], ev[0][2]
